@@ -8,5 +8,5 @@ echo "demo with change: exit $(run_demo)" >> "$OUT"; tail -3 "$W/.demo_out.txt" 
 git stash -q -- tsdate
 echo "demo without change: exit $(run_demo)" >> "$OUT"; tail -2 "$W/.demo_out.txt" | grep -v conda >> "$OUT"
 git stash pop -q
-echo "suite with change: $(PYTHONPATH="$W" timeout 3000 /venv/bin/python -m pytest -q -p no:cacheprovider --timeout=900 -q 2>&1 | grep -E 'passed|failed|error' | tail -1)" >> "$OUT"
+echo "suite with change: $(PYTHONPATH="$W" timeout 3000 /venv/bin/python -m pytest -q -p no:cacheprovider --timeout=900 2>&1 | grep -E 'passed|failed|error' | tail -1)" >> "$OUT"
 git diff --stat -- tsdate | tail -1 >> "$OUT"
